@@ -14,7 +14,7 @@ from typing import TYPE_CHECKING
 from pynenc.conf.config_trigger import ConfigTriggerSQLite
 from pynenc.identifiers.task_id import TaskId
 from pynenc.models.trigger_definition_dto import TriggerDefinitionDTO
-from pynenc.trigger.base_trigger import BaseTrigger
+from pynenc.trigger.base_trigger import UNCONDITIONAL, BaseTrigger
 from pynenc.trigger.conditions import (
     ConditionContext,
     TriggerCondition,
@@ -284,6 +284,8 @@ class SQLiteTrigger(BaseTrigger):
 
     def get_last_cron_execution(self, condition_id: str) -> datetime | None:
         with sqlite_conn(self.sqlite_db_path) as conn:
+            # Take the write lock before reading so that compare and store are one atomic step
+            conn.execute("BEGIN IMMEDIATE")
             cursor = conn.execute(
                 f"SELECT last_cron_execution FROM {self.tables.CONDITIONS} WHERE condition_id = ?",
                 (condition_id,),
@@ -298,9 +300,11 @@ class SQLiteTrigger(BaseTrigger):
         self,
         condition_id: str,
         execution_time: datetime,
-        expected_last_execution: datetime | None = None,
+        expected_last_execution: "datetime | None | object" = UNCONDITIONAL,
     ) -> bool:
         with sqlite_conn(self.sqlite_db_path) as conn:
+            # Take the write lock before reading so that compare and store are one atomic step
+            conn.execute("BEGIN IMMEDIATE")
             cursor = conn.execute(
                 f"SELECT last_cron_execution FROM {self.tables.CONDITIONS} WHERE condition_id = ?",
                 (condition_id,),
@@ -309,7 +313,7 @@ class SQLiteTrigger(BaseTrigger):
             cursor.close()
             current = datetime.fromisoformat(row[0]) if row and row[0] else None
             if (
-                expected_last_execution is not None
+                expected_last_execution is not UNCONDITIONAL
                 and current != expected_last_execution
             ):
                 return False
@@ -378,6 +382,8 @@ class SQLiteTrigger(BaseTrigger):
         now = datetime.now(UTC)
         expiration = now + timedelta(seconds=expiration_seconds)
         with sqlite_conn(self.sqlite_db_path) as conn:
+            # Take the write lock before reading so that two workers cannot both see "no claim"
+            conn.execute("BEGIN IMMEDIATE")
             cursor = conn.execute(
                 f"SELECT expiration FROM {self.tables.TRIGGER_RUN_CLAIMS} WHERE trigger_run_id = ?",
                 (trigger_run_id,),
